@@ -509,7 +509,7 @@ def main(ctx):
     n_small = 20000 if quick else 250000
     n_long = 2500 if quick else 25000
     n_big = 150 if quick else 1500
-    for sync in (True,):
+    for sync in (True, False):
         run_cases(ctx, mods, model, [gen_small(ctx.rng, sync) for _ in range(n_small)], sync, 'small')
         run_cases(ctx, mods, model, [gen_long(ctx.rng, sync, False) for _ in range(n_long)], sync, 'long')
         run_cases(ctx, mods, model, [gen_long(ctx.rng, sync, True) for _ in range(n_big)], sync, 'big')
